@@ -160,6 +160,7 @@ func main() {
 			}
 		}
 		gi, isRef := refGroup(in.Name)
+		dm := newDirtyMaker(in, r, validEncodings(r, in, 2))
 		for _, x := range ins {
 			oc := decodePoint(in, x.b)
 			rep.Count(in.Name+"/"+vh.Hex(x.b), len(x.b) == size)
@@ -179,6 +180,27 @@ func main() {
 					what += "/empty"
 				}
 				rep.Fail(failKey(in.Name, what), "point decoder (or re-encoding of the accepted point) panicked: "+oc.panic, replay)
+			}
+			// the same bytes into used receivers
+			for _, kind := range dm.kindsFor(x.class, len(x.b) == size, size > 200) {
+				recv := dm.make(kind)
+				if recv == nil {
+					continue
+				}
+				od := decodePointInto(recv, x.b)
+				rep.Dist("dirty-receiver:" + in.Name)
+				why := compareOutcome(oc, od)
+				if why == "" && od.ok && od.panic == "" {
+					if m := memberOf(in, od, bnTwist); m != "" {
+						why = "decoded value is not a member: " + m
+					}
+				}
+				if why != "" {
+					rep.Fail(failKey(in.Name, "decode-depends-on-receiver/"+dirtyKinds[kind]),
+						"decoding into a receiver that "+dirtyKinds[kind]+" does not behave like decoding into a fresh one: "+why,
+						map[string]interface{}{"group": in.Name, "class": x.class, "input": describe(x.b), "receiver": dirtyKinds[kind],
+							"fresh-accepts": oc.ok, "fresh-re-encoding": vh.Hex(oc.re), "dirty-accepts": od.ok, "dirty-re-encoding": vh.Hex(od.re)})
+				}
 			}
 			if isRef && !o.Search {
 				cb.add(fmt.Sprintf("CPoint # %d", gi), "("+vh.CoqBytes(x.b)+", "+obsTerm(oc)+")")
@@ -225,6 +247,11 @@ func main() {
 				replay["why"] = why
 				replay["re-encoding"] = vh.Hex(oc.re)
 				rep.Fail(failKey(in.Name, "accepts-non-member"), "decoder accepted an encoding of a value outside the promised set: "+why, replay)
+			}
+			if strings.HasSuffix(in.Name, ".GT") && !validatesOrder[in.Name] && len(x.b) == size {
+				if isNull, e := orderTimes(in, oc.pt); e == "" && !isNull {
+					rep.Dist("point:" + in.Name + ":accepted-outside-order-r-subgroup(no-promise)")
+				}
 			}
 			if offSub[string(x.b)] {
 				rep.Fail(failKey(in.Name, "accepts-wrong-subgroup"), "decoder accepted a curve point built without cofactor clearing", replay)
@@ -315,8 +342,27 @@ func main() {
 		}
 		sins := scalarInputs(r, g, o.Thorough && !lightGroup[in.Name], ns)
 		sampleLengths = false
-		for _, x := range sins {
+		ds := newDirtyScalars(g, r)
+		for xi, x := range sins {
 			oc := decodeScalar(g, x.b)
+			kinds := []int{xi % 5}
+			if len(x.b) == size {
+				kinds = []int{0, 1, 2, 3, 4}
+			}
+			for _, kind := range kinds {
+				recv := ds.make(kind)
+				if recv == nil {
+					continue
+				}
+				od := decodeScalarInto(recv, x.b)
+				rep.Dist("dirty-receiver:" + name)
+				if why := compareOutcome(oc, od); why != "" {
+					rep.Fail(failKey(name, "decode-depends-on-receiver/"+dirtyKinds[kind]),
+						"decoding a scalar into a receiver that "+dirtyKinds[kind]+" does not behave like decoding into a fresh one: "+why,
+						map[string]interface{}{"scalar": name, "class": x.class, "input": describe(x.b), "receiver": dirtyKinds[kind],
+							"fresh-accepts": oc.ok, "fresh-re-encoding": vh.Hex(oc.re), "dirty-accepts": od.ok, "dirty-re-encoding": vh.Hex(od.re)})
+				}
+			}
 			rep.Count(name+"/"+vh.Hex(x.b), len(x.b) == size)
 			verdict := "err"
 			if oc.ok {
